@@ -19,12 +19,14 @@ from smpl_extract.generalized.wav import WavSampleAdapter
 from smpl_extract.formats.wav import RiffStruct
 from vf.absfile import mkfile, byte_is, indices, REAL
 from vf import hist
+from vf.util import fresh_class_state
 
 CNT = [0]
 LA, LR = 8192, 9216
 
 
 def _shim():
+    fresh_class_state(StreamOffset, StreamWrapper, StreamReversed, Segment, RolandFile, MdfStream)
     if not REAL:
         from vf.npshim import NpShim
         S.np = NpShim
@@ -52,6 +54,15 @@ def build_pair(kind, g):
             win = StreamOffset(fst, wsize, woff)
             views.append(View(win, wsize, (lambda sl, woff: (lambda p: P * LA + sl[(woff + p) // LA] * LA + (woff + p) % LA))(sl, woff)))
         return f, views, View(part, 24 * LA, lambda p: P * LA + p)
+    if kind == 4:       # two AKAI sample windows in two DIFFERENT partitions of one image (same partition-relative coordinates possible)
+        f = mkfile(48 * LA)
+        parts = [StreamOffset(f, 24 * LA, 0), StreamOffset(f, 24 * LA, 24 * LA)]
+        views = []
+        for pi, (a, b, woff, wsize) in enumerate(((g[1], g[2], g[5], g[6]), (g[3], g[4], g[7], g[8]))):
+            sl = [a, b]
+            win = StreamOffset(StreamWrapper(Segment(parts[pi], sl), 2 * LA), wsize, woff)
+            views.append(View(win, wsize, (lambda sl, woff, pi: (lambda p: pi * 24 * LA + sl[(woff + p) // LA] * LA + (woff + p) % LA))(sl, woff, pi)))
+        return f, views, View(parts[0], 24 * LA, lambda p: p)
     if kind == 1:       # two CDDA track windows directly on the bin handle
         f = mkfile(40000)
         views = []
@@ -88,6 +99,9 @@ def geometry_ok(kind, g):
         return (g[0] <= 3 and 1 <= g[1] <= 20 and 1 <= g[2] <= 20 and 1 <= g[3] <= 20 and 1 <= g[4] <= 20 and g[1] != g[2] and g[3] != g[4]
                 and g[1] != g[3] and g[1] != g[4] and g[2] != g[3] and g[2] != g[4]
                 and 0 <= g[5] and 0 < g[6] and g[5] + g[6] <= 2 * LA and 0 <= g[7] and 0 < g[8] and g[7] + g[8] <= 2 * LA)
+    if kind == 4:
+        return (1 <= g[1] <= 20 and 1 <= g[2] <= 20 and 1 <= g[3] <= 20 and 1 <= g[4] <= 20 and g[1] != g[2] and g[3] != g[4]
+                and 0 <= g[5] and 0 < g[6] and g[5] + g[6] <= 2 * LA and 0 <= g[7] and 0 < g[8] and g[7] + g[8] <= 2 * LA)
     if kind == 1:
         return 0 <= g[5] and 0 < g[6] and g[5] + g[6] <= 40000 and 0 <= g[7] and 0 < g[8] and g[7] + g[8] <= 40000
     if kind == 2:
@@ -103,7 +117,7 @@ def h_sched(kind: int, g0: int, g1: int, g2: int, g3: int, g4: int, g5: int, g6:
             t0: int, o0: int, a0: int, t1: int, o1: int, a1: int, t2: int, o2: int, a2: int, t3: int, o3: int, a3: int,
             nops: int, k: int) -> int:
     """
-    pre: 0 <= kind <= 3 and 2 <= nops <= 4
+    pre: 0 <= kind <= 4 and 2 <= nops <= 4
     pre: 0 <= g0 <= 40000 and 0 <= g1 <= 40000 and 0 <= g2 <= 40000 and 0 <= g3 <= 40000 and 0 <= g4 <= 40000
     pre: 0 <= g5 <= 40000 and 0 <= g6 <= 40000 and 0 <= g7 <= 40000 and 0 <= g8 <= 40000
     pre: 0 <= t0 <= 3 and 0 <= t1 <= 3 and 0 <= t2 <= 3 and 0 <= t3 <= 3
@@ -182,7 +196,7 @@ def h_step(kind: int, which: int, g0: int, g1: int, g2: int, g3: int, g4: int, g
            h0: int, h1: int, h2: int, h3: int, h4: int, h5: int, h6: int, h7: int, h8: int,
            p: int, op: int, a: int, k: int) -> int:
     """
-    pre: 0 <= kind <= 3 and 0 <= which <= 1 and 0 <= op <= 1
+    pre: 0 <= kind <= 4 and 0 <= which <= 1 and 0 <= op <= 1
     pre: 0 <= g0 <= 40000 and 0 <= g1 <= 40000 and 0 <= g2 <= 40000 and 0 <= g3 <= 40000 and 0 <= g4 <= 40000
     pre: 0 <= g5 <= 40000 and 0 <= g6 <= 40000 and 0 <= g7 <= 40000 and 0 <= g8 <= 40000
     pre: 0 <= h0 <= 300000 and 0 <= h1 <= 300000 and 0 <= h2 <= 300000 and 0 <= h3 <= 300000 and 0 <= h4 <= 300000
@@ -279,7 +293,7 @@ META = {
     "out_of_claim": ["threads (the tool is single-threaded)", "operations other than seek/read/tell"],
 }
 
-KINDS = {0: "akai+akai", 1: "cdda+cdda", 2: "roland+roland-reversed", 3: "mdf-window+mdf-window"}
+KINDS = {0: "akai+akai", 1: "cdda+cdda", 2: "roland+roland-reversed", 3: "mdf-window+mdf-window", 4: "akai-partA+akai-partB"}
 
 
 def obligations(tier, seed):
@@ -288,7 +302,7 @@ def obligations(tier, seed):
     obs = []
     # (a) inductive step: ONE operation of a stream from an arbitrary state of every shared cursor.  By induction over the
     #     schedule this covers every interleaving of any length with any number of sibling streams / listing traffic.
-    for kind in range(4):
+    for kind in range(5):
         for which in (0, 1):
             for op in (0, 1):
                 obs.append(dict(name=f"C11.step/{KINDS[kind]}/stream{which}/{'read' if op else 'seek'}", module="vf.props.c11", func="h_step",
@@ -298,11 +312,13 @@ def obligations(tier, seed):
                                 bound="one operation (reads <= 4200 bytes, seeks anywhere) from an arbitrary valid pre-state (inductive step => schedules of any length); windows <= 2 sectors/clusters, <= 12 raw sectors, <= 40000 bytes",
                                 stubs=["AbsFile/Spans"] + (["NpShim"] if kind == 2 else [])))
     # (b) concrete skeletons as end-to-end cross-check of the induction argument
-    for kind in range(4):
+    for kind in range(5):
         others = (1, 2, 3) if kind != 1 else (1, 3)
         if q:
             sk = [[(0, 0), (1, 1), (0, 1)], [(0, 1), (1, 0), (0, 1)]]
-            if kind == 1:
+            if kind == 4:
+                sk = [[(0, 1), (1, 1)], [(0, 0), (1, 1), (0, 1)], [(1, 1), (0, 1)]]
+            elif kind == 1:
                 sk += [[(0, 1), (1, 1), (0, 1)], [(1, 1), (0, 1), (1, 1)], [(0, 1), (3, 1), (0, 1)]]
             else:
                 sk += [[(0, 1), (2, 0), (0, 1)], [(0, 0), (2, 1), (0, 1)]]
@@ -316,6 +332,12 @@ def obligations(tier, seed):
             pre = [f"kind == {kind}", f"nops == {len(ops)}"] + [f"t{i} == {t} and o{i} == {o}" for i, (t, o) in enumerate(ops)]
             for j in range(len(ops), 4):
                 pre.append(f"t{j} == 0 and o{j} == 0 and a{j} == 0")
+            if kind == 4:
+                # the two files sit at the SAME partition-relative sectors (concrete), everything else symbolic
+                obs.append(dict(name=f"C11.sched/{KINDS[kind]}/same-sectors/{nm}", module="vf.props.c11", func="h_sched",
+                                extra_pre=pre + ["g1 == 3 and g2 == 5 and g3 == 3 and g4 == 5"], timeout=T_, runs=RUNS,
+                                sym="window geometry, every offset and size, byte index", bound=f"schedule {nm}; both files on partition-relative sectors 3,5",
+                                stubs=["AbsFile/Spans"]))
             obs.append(dict(name=f"C11.sched/{KINDS[kind]}/{nm}", module="vf.props.c11", func="h_sched", extra_pre=pre, timeout=T_, runs=RUNS,
                             sym="window geometry, sector/cluster numbers, every offset and size, byte index",
                             bound=f"{len(ops)}-operation schedule {nm} (0/1 = streams, P = shared parent view, H = raw handle; s = seek, r = read)",
